@@ -201,6 +201,23 @@ def cli_stream(R, drv, rng, tier, scenarios):
                                              "accept" if want else "reject", "loaded" if loaded else "refused")))
         finally:
             proj.cleanup()
+    # a stage file that lists the SAME artifact twice (as a merge or copy/paste leaves it), with different flags: it must be refused —
+    # otherwise which of the two definitions owns what is anybody's guess
+    for k_, (sec, a1, a2) in enumerate([("outputs", "is-dir: true", "is-dir: true\n    disable-recursion: true"), ("outputs", "{}", "is-dir: true"),
+                                         ("inputs", "{}", "is-dir: true")]):
+        proj = s1.Project(dud, os.path.join(base, "dup%d" % k_), remote=False)
+        try:
+            body = "%s:\n  data:\n    %s\n  data:\n    %s\n" % (sec, a1 if a1 != "{}" else "skip-cache: false", a2)
+            if sec == "inputs":
+                body = "command: echo hi\n" + body + "outputs:\n  o.txt: {}\n"
+            open(os.path.join(proj.root, "dup.yaml"), "w").write(body)
+            rc, so, se = proj.dud(["stage", "add", "dup.yaml"], cwd=proj.root)
+            R.count("cli-duplicate-key-%d" % k_, True)
+            if rc == 0:
+                viol.append(dict(what="duplicate-artifact-accepted", history=["stage add dup.yaml -> exit 0"],
+                                 detail="a stage file listing `data` twice under %s (%r and %r) was accepted" % (sec, a1, a2)))
+        finally:
+            proj.cleanup()
     shutil.rmtree(base, ignore_errors=True)
     for v in viol[:6]:
         R.violation(dict(kind="property-violated-on-implementation", stream="CLI", **v))
